@@ -6,6 +6,7 @@
 import GraphiqModel.Proofs.SolverSoundInv
 import GraphiqModel.Proofs.SolverSoundRefine
 import GraphiqModel.Model.Convert
+import GraphiqModel.Proofs.Check
 namespace Graphiq.Solver
 open Graphiq Graphiq.Cliff PRow STab Tab
 
@@ -32,15 +33,12 @@ theorem solve_run (target : STab) (hg : target.Good) (s : St) (h : solve target 
     · show gspan rs.t a
       rw [hspan]; exact ha
 
-/-- the same with the executable test `isZero` on the final working tableau -/
-theorem solve_run_isZero (target : STab) (hg : target.Good) (s : St) (h : solve target = .ok s)
-    (hfinal : s.t.isZero = true) (script : List Bool) :
+/-- the same with an executable test on the final working tableau: it generates the group of |0…0⟩ (equal canonical forms) -/
+theorem solve_run_zero (target : STab) (hg : target.Good) (s : St) (h : solve target = .ok s)
+    (hfinal : s.t.sameGroup (STab.zero (target.n + s.ne)) = true) (script : List Bool) :
     ∃ rs, stabRun s.ne target.n .prob script s.cops = some rs ∧ rs.t.Valid ∧
-      SpanEq (STab.ofTab rs.t) (withEmitters target s.ne) := by
-  have inv := solve_inv target hg s h
-  have hz := isZero_spanEq s.t inv.good hfinal
-  rw [inv.n_eq] at hz
-  exact solve_run target hg s h hz script
+      SpanEq (STab.ofTab rs.t) (withEmitters target s.ne) :=
+  solve_run target hg s h (sameGroup_sound _ _ hfinal) script
 
 /-! ### the target of the property: a graph state on the photons, every emitter in |0⟩ -/
 
@@ -147,5 +145,27 @@ theorem withEmitters_graph (np ne : Nat) (adj : Nat → Nat → Bool) :
   · intro i hi
     have hi' : i < np + ne := hn ▸ hi
     exact InSpan.eqv _ _ (spn_gen (targetSTab np ne adj) i hi') (rows i hi').symm
+
+/-! ### the time-reversed-measurement lemma on tableaux -/
+
+/-- **Time-reversed measurement, tableau form (all sizes, both outcomes).**  Let `t` be a real commuting generating set on
+    `np + ne` qubits whose group contains `+Z` on emitter `e`.  From ANY valid Clifford tableau whose stabilizer group is that of
+    `CNOT(e→p)·H_e·t`, with ANY remaining outcome script, the compiled `MeasurementCNOTandReset(e→p)` (Z-measurement of the emitter,
+    X on the photon iff the outcome is 1, reset of the emitter) succeeds, keeps the tableau valid, and ends in exactly the signed
+    group of `t` again. -/
+theorem mcr_tab_key (np ne e p : Nat) (he : e < ne) (hp : p < np) (t : STab) (hn : t.n = np + ne) (hgood : t.Good)
+    (hZ : t.Spn (Zq (np + e) false)) (rs : RunState) (hok : TOk (np + ne) rs.t)
+    (hrs : gspan rs.t = img (np + ne) (fun a => PRow.cnot (np + e) p (PRow.h (np + e) a)) t.Spn) :
+    ∃ rs', stepOp np (np + ne) .prob rs (.mcr ⟨.e, e⟩ ⟨.p, p⟩ 0) = some rs' ∧ TOk (np + ne) rs'.t ∧ gspan rs'.t = t.Spn := by
+  have hcl : Closed (np + ne) t.Spn := hn ▸ spn_closed t
+  have hx : ∀ a, t.Spn a → a.x (np + e) = false := by
+    intro a ha
+    have := spn_comm t hgood a _ ha hZ
+    rw [sp_Zq _ _ _ _ (by rw [hn]; omega)] at this; exact this
+  obtain ⟨k1, k2⟩ := mcr_key (np + ne) (np + e) p (by omega) (by omega) (by omega) t.Spn hcl hx hZ
+  obtain ⟨rs', o, h1, h2, h3⟩ := stepOp_refines np ne (.mcr e p) rs hok ⟨⟨he, hp⟩, by rw [hrs]; exact k1⟩
+  refine ⟨rs', h1, h2, ?_⟩
+  rw [h3, hrs]
+  exact k2 o
 
 end Graphiq.Solver
